@@ -183,7 +183,7 @@ func newExec(ld *Loaded) *Exec {
 		inlineMax: 14, maxStates: 60000, loopInfo: map[*ssa.Function]*LoopInfo{}, pureCache: map[*ssa.Function]*effectSummary{},
 		useContracts: true, noContractFor: map[string]bool{}, assumed: map[string]int{},
 		initDone: map[*ssa.Package]bool{}, inInit: map[*ssa.Package]bool{}, globalVals: map[*ssa.Global]*Term{}, initStates: map[*ssa.Package]*State{},
-		iterPrefix: map[string]*Term{}, arrayFam: map[string]int{}}
+		iterPrefix: map[string]*Term{}, arrayFam: map[string]int{}, wsCache: map[*ssa.Function]*WriteSet{}}
 }
 
 // ---------------------------------------------------------------- property specs
